@@ -244,8 +244,10 @@ func (pool *BlockPool) AddBlock(peerID string, block *types.Block, blockSize int
 
 	if requester.setBlock(block, peerID) {
 		pool.numPending--
-		peer := pool.peers[peerID]
-		peer.decrPending(blockSize)
+		// the peer may have been removed from the pool while its answer was on the way
+		if peer := pool.peers[peerID]; peer != nil {
+			peer.decrPending(blockSize)
+		}
 	} else {
 		// Bad peer?
 	}
@@ -432,7 +434,7 @@ func newBPRequester(pool *BlockPool, height int64) *bpRequester {
 	bpr := &bpRequester{
 		pool:       pool,
 		height:     height,
-		gotBlockCh: make(chan struct{}),
+		gotBlockCh: make(chan struct{}, 1),
 		redoCh:     make(chan struct{}),
 
 		peerID: "",
@@ -456,9 +458,14 @@ func (bpr *bpRequester) setBlock(block *types.Block, peerID string) bool {
 		return false
 	}
 	bpr.block = block
+	// Never block here: the caller holds the pool lock, and the request routine may at this moment
+	// be taking a redo signal and then want that lock to pick a new peer. The channel holds one
+	// token, present exactly while a block set since the last reset has not been noticed.
+	select {
+	case bpr.gotBlockCh <- struct{}{}:
+	default:
+	}
 	bpr.mtx.Unlock()
-
-	bpr.gotBlockCh <- struct{}{}
 	return true
 }
 
@@ -478,6 +485,10 @@ func (bpr *bpRequester) reset() {
 	bpr.mtx.Lock()
 	bpr.peerID = ""
 	bpr.block = nil
+	select {
+	case <-bpr.gotBlockCh:
+	default:
+	}
 	bpr.mtx.Unlock()
 }
 
